@@ -4,11 +4,29 @@
 #include <algorithm>
 #include <numeric>
 #include <set>
+#ifdef REAL_TBB
+#include <tbb/tbb.h>
+#include <string>
+#include <vector>
+namespace tbb { namespace vt {
+struct Ctl { bool record = false; int mode = 0; std::vector<std::string> log; size_t calls = 0, leaves = 0, steals = 0; };
+inline Ctl& ctl() { static Ctl c; return c; }
+inline void seed(uint64_t) {}
+} }
+#else
 #include "tbb/vtbb_core.h"
+#endif
 #include "parallel.h"
 #include "common.h"
 using namespace manifold;
-using hz::Rng; using hz::join; using hz::emit;
+using hz::Rng; using hz::join;
+static void emit(const std::string& tag, const std::string& req, const std::string& exp, bool ok, const std::string& msg = "") {
+#ifdef REAL_TBB
+  hz::emit(tag, "", "", ok, msg);
+#else
+  hz::emit(tag, req, exp, ok, msg);
+#endif
+}
 typedef long long i64;
 static const i64 P = 65521;
 struct Add { i64 operator()(i64 a, i64 b) const { return a + b; } };
@@ -130,7 +148,7 @@ int main(int argc, char** argv) {
       auto log = takeLog();
       emit(tag + " removeif n=" + std::to_string(n), "par removeif " + p + " ; " + join(in) + " ; " + firstTree(log), join(a), a == b, "remove_if != std::remove_if");
     } else if (which == 6) {  // unique
-      if (big && c % 3 == 0) { static const size_t L[] = {65535, 65536, 65537, 131071, 131072, 131073, 200000}; n = L[r.below(7)]; }
+      if (big || (c / 14) % 2 == 0) { static const size_t L[] = {65535, 65536, 65537, 131071, 131072, 131073, 200000}; n = L[r.below(7)]; }
       std::vector<i64> in(n);
       size_t run = 1 + r.below(4);
       for (size_t i = 0; i < n; i++) in[i] = (i64)(i / run) - (r.below(50) == 0 ? 1 : 0);
